@@ -146,7 +146,19 @@ NEEDS.update({
  "l18": "interleaving: Filter of a pod with (wide) ip ranges holds the IPAM read lock, a writer queues, the request re-enters the read lock",
  "l19": "interleaving: a lookup of a cached custom-resource kind reads the map without the lock while a lookup of an uncached kind rewrites it",
 })
-OTHER = {'l17': ['C14'], 'l08': ['C09'], 'l10': ['C04'], 'l01': ['C04'], 'k20': ['C09'], 'k02': ['C07'], 'k05': ['C09'], 'j08': ['C05'], 'j01': ['C04'], 'b02': ['C03', 'C05'], 'a04': ['C10'], 'd02': ['C06'], 'd09': ['C05', 'C06'], 'e06': ['C08', 'C05'], 'e01': ['C09', 'C05'], 'e10': ['C04'], 'e04': ['C01'], 'f13': ['C12'], 'd01': ['C04'], 'i02': ['C05'], 'i06': ['C09', 'C05'], 'i04': ['C01'], 'g02b': ['C06'], 'g10': ['C04'], 'g19': ['C06'], 'f16a': ['C15'], 'f15b': ['C16']}
+NEEDS.update({
+ "m02": "multi-step: never/immutable allocation, reload or restart (memory rebuilt from the store), pod goes away, resync, next incarnation",
+ "m05": "multi-step: an allocation with node/uid recorded is later cleared by a reserve (unbind/resync of a never/immutable pod); memory vs store, or a restart",
+ "m06": "interleaving + input: a reload that changes the CIDR of a node's subnet (e.g. /24 -> /25) while a Filter/Bind for that node runs between the cache reset and ConfigurePool",
+ "m11": "input: one release request with >=2 entries, an explicit non-statefulset appType first and a statefulset entry with appType omitted after it",
+ "m12": "fault x2: a DEL in which an even number (>=2) of plugin DELs fail, then the retried DEL (order of the retried plugins)",
+ "m13": "multi-step: pod holds an IP, the pool's gateway/VLAN/mask are changed by a configuration reload (ranges kept), the IP is reported again at a later bind",
+ "m14": "fault: SetupPortMapping fails after it partly applied (n-th KUBE-HOSTPORTS append) - the port file is not written yet, so the cleanup finds nothing",
+ "m15": "state: a local pod with a chain from an earlier sync, now without an address and no longer selected by any policy, at a full sync",
+ "m16": "input: peer with namespaceSelector AND a podSelector that uses matchExpressions; a pod matching the matchLabels part only",
+ "m20": "input: a range string with a second '~' (a~b~c, a~b~, a~b~garbage)",
+})
+OTHER = {'m06': ['C09'], 'm02': ['C03'], 'l17': ['C14'], 'l08': ['C09'], 'l10': ['C04'], 'l01': ['C04'], 'k20': ['C09'], 'k02': ['C07'], 'k05': ['C09'], 'j08': ['C05'], 'j01': ['C04'], 'b02': ['C03', 'C05'], 'a04': ['C10'], 'd02': ['C06'], 'd09': ['C05', 'C06'], 'e06': ['C08', 'C05'], 'e01': ['C09', 'C05'], 'e10': ['C04'], 'e04': ['C01'], 'f13': ['C12'], 'd01': ['C04'], 'i02': ['C05'], 'i06': ['C09', 'C05'], 'i04': ['C01'], 'g02b': ['C06'], 'g10': ['C04'], 'g19': ['C06'], 'f16a': ['C15'], 'f15b': ['C16']}
 only = sys.argv[1:]
 for sid, (prop, pkg) in SEEDS.items():
     if only and sid not in only: continue
